@@ -220,7 +220,14 @@ class DbAdapter:
             w.bpath = w.A.splitDatabase([tuple(pr) for pr in a["k"]], "-all")
             w.bstate = "closed"
         elif n == "Close":
-            w.A.close(a["ok"])
+            if a["via"] == "exit":  # the end of a `with db:` block, with or without an exception passing through
+                try:
+                    raise RuntimeError("leaving the with-block") if not a["ok"] else StopIteration
+                except (RuntimeError, StopIteration) as ex:
+                    exc = (type(ex), ex, ex.__traceback__) if not a["ok"] else (None, None, None)
+                w.A.__exit__(*exc)
+            else:
+                w.A.close(a["ok"])
             w.apath, w.astate = os.path.join(w.dir, "f%d.h5" % w.nfile), "closed"
         else:
             raise AssertionError("unknown action " + n)
@@ -269,7 +276,7 @@ class DbAdapter:
             db = w.A
             out["steps"] = [[int(c), int(n)] for c, n in db.genTimeSteps()]
             out["names"] = [self.parse_name(g) for g in db.keys()]
-            out["has"] = [bool(db.hasTimeStep(c, n, lab)) for c, n, lab in out["names"]]
+            out["has"] = [[bool(db.hasTimeStep(c, n, lab)) for lab in TRACE_LABELS] for c, n, _ in out["names"]]
             blocks = [self.blk[k] for k in sorted(w.live)]
 
             def query(field, fn):
@@ -365,11 +372,50 @@ class DbAdapter:
         return self._dumps[key]
 
 
+def edge_class(e):
+    """Input class of an edge: the action and the features of its source state that decide what the call has to do."""
+    a, f = e["act"], e["from"]
+    n = a["n"]
+    sa, sb = f["A"]["snaps"], f["B"]["snaps"]
+    ctx = "split" if any(x["off"] > 0 for x in sa) else "rebased0" if f["B"]["st"] == "closed" and sa and len(sb) > len(sa) \
+        else "merged" if f["B"]["st"] == "closed" and sa else "-"
+    if n == "Split":
+        return (n, len(a["k"]), min(k[0] for k in a["k"]) > 0, any(x["lab"] for x in sa))
+    if n == "Merge":
+        before = [x for x in sb if (x["c"], x["n"]) < (a["c"], a["t"])]
+        return (n, min(len(before), 2), len(before) < len(sb), any(x["lab"] for x in before),
+                any((x["c"], x["n"]) == (a["c"], a["t"]) for x in sb))
+    if n == "Load":
+        return (n, a["l"], ctx)
+    if n == "Write":
+        return (n, a["l"], e["err"], ctx, min(len(sa), 2))
+    if n in ("Close", "Rotate"):
+        return (n, a["ok"], a.get("via", "-"), ctx, min(len(sa), 2))
+    return (n, ctx, min(len(sa), 2))
+
+
+def class_order(graph, rng):
+    """Edge indices so that every input class is visited before any class is visited twice (classes of rare database steps
+    first, members of a class in seeded random order)."""
+    classes = {}
+    for i, e in enumerate(graph.edges):
+        classes.setdefault(edge_class(e), []).append(i)
+    keys = sorted(classes, key=lambda k: (RANK.get(k[0], 4), str(k)))
+    for k in keys:
+        rng.shuffle(classes[k])
+    order = []
+    while any(classes.values()):
+        for k in keys:
+            if classes[k]:
+                order.append(classes[k].pop())
+    return order
+
+
 def covering_replay(graph, obs_of, ad, budget, rng, priority):
     """Execute edges of TLC's graph on real objects: for every target edge (in priority order) the BFS path to its source is
     applied, then the edge; every edge that had not been checked before is checked when it is passed (one projection each).
     -> (n_checked, n_nontrivial, divergences)"""
-    order = sorted(range(len(graph.edges)), key=lambda i: (priority(graph.edges[i]), rng.random()))
+    order = class_order(graph, rng)
     checked = set()
     divs = []
     nontriv = 0
@@ -458,20 +504,30 @@ def edge_priority(e):
     return (4 if e["from"]["A"]["snaps"] else 5, -rich)
 
 
+FIELD_GROUP = {"hist": "history", "hpos": "history", "hsel": "history", "hloc": "history", "hbv": "history", "sel": "history",
+               "hts": "getTimeSteps", "steps": "listing", "names": "listing", "has": "listing"}
+
+
 def div_key(d):
-    """Stable identifier of the failing query / input class of a replay divergence."""
+    """Stable identifier of the failing query / input class of a divergence (the same in both directions):
+       db:<query>:exception:<type>            a query raised
+       db:<group>[:after-split|:after-merge]   a query (history / listing / getTimeSteps) returned something else; the context says
+                                               whether the file had been produced by a split or a merge
+       db:<field>:<action>                     outcome of a call (err, res), contents of a closed file (dumpA/B), live state"""
     import re
 
     field = re.sub(r"\[\d+\]", "", d["first_difference"].split(":")[0]).split(".")
     field = field[1] if len(field) > 1 else "?"
     obs = d.get("observed") or {}
     if isinstance(obs.get(field), dict) and "exception" in obs[field]:
-        return "replay:%s:exception:%s" % (field, obs[field]["exception"].split(":")[0])
+        return "db:%s:exception:%s" % (field, obs[field]["exception"].split(":")[0])
     if field == "exception":
-        return "replay:%s:exception" % d["action"]["n"]
+        return "db:%s:exception" % d["action"]["n"]
     acts = [a["n"] for a in d["behaviour"]]
-    ctx = "after-split" if "Split" in acts else "after-merge" if "Merge" in acts else d["action"]["n"]
-    return "replay:%s:%s" % (field, ctx)
+    ctx = ":after-split" if "Split" in acts else ":after-merge" if "Merge" in acts else ""
+    if field in FIELD_GROUP:
+        return "db:%s%s" % (FIELD_GROUP[field], ctx)
+    return "db:%s:%s%s" % (field, d["action"]["n"], ctx)
 
 
 # -- code -> spec ---------------------------------------------------------------------------------------------
@@ -509,7 +565,7 @@ def trace_driver(ad, ntraces, nev, seed):
                 x = rng.random()
                 listing = [ad.parse_name(g) for g in w.A.keys()] if w.astate == "open" else []
                 if last:
-                    a = {"n": "Close", "ok": rng.random() < 0.5}
+                    a = {"n": "Close", "ok": rng.random() < 0.5, "via": rng.choice(["close", "exit"])}
                 elif x < 0.22:
                     o, p = rng.choice(sorted(live)), rng.randint(1, 2)
                     v = rng.choice([v for v in range(C["NVal"] + 1) if v != par[o][p - 1]])
@@ -874,7 +930,7 @@ def run(rep, tier, seed, parts=("db", "run")):
         if "db" in parts:
             _run_db(rep, thorough, seed, ad, (("wide", fut["db_emit"]), ("narrow", fut["db_emit2"])))
         if "run" in parts:
-            run_faults(rep, thorough, seed, ad.rig_for_runs(), fut["run_emit"], (600, 150) if thorough else (30, 8))
+            run_faults(rep, thorough, seed, ad.rig_for_runs(), fut["run_emit"], (300, 60) if thorough else (24, 6))
         if not _SELFTEST:
             res = fut["db_mc"].result()
             rep.add_tlc("exhaustive:DbHistory_mc%s.cfg" % sfx, res)
@@ -906,7 +962,7 @@ def run(rep, tier, seed, parts=("db", "run")):
 def _run_db(rep, thorough, seed, ad, fut_emits):
     # spec -> code: two emitted graphs -- "wide" (objects that move and appear, two parameters, depth 4/5) and "narrow" (one
     # object, deeper sequences of database steps)
-    budgets = {"wide": 2200 if thorough else 110, "narrow": 1800 if thorough else 70}
+    budgets = {"wide": 1200 if thorough else 80, "narrow": 800 if thorough else 50}
     for name, fut_emit in fut_emits:
         eres = fut_emit.result()
         rep.add_tlc("edges:%s:DbHistory_emit" % name, eres)
@@ -932,7 +988,7 @@ def _run_db(rep, thorough, seed, ad, fut_emits):
                     "expected": {k: v for k, v in (obs_of(e) or {}).items() if k in ("steps", "names", "hist", "res", "err")}})
 
     # code -> spec
-    ntr, nev = (160, 30) if thorough else (10, 18)
+    ntr, nev = (80, 30) if thorough else (8, 16)
     traces = trace_driver(ad, ntr, nev, seed)
     bad, stats = tracecheck.validate("DbHistory_trace", "DbHistory_trace.cfg", DBDIR, traces, timeout=3000)
     rep.add_tlc("trace-validation:DbHistory", stats["tlc"])
@@ -955,7 +1011,7 @@ def _run_db(rep, thorough, seed, ad, fut_emits):
             d = rp.diff(b["mismatch"]["expected"], {"post": nxt["post"], "err": nxt["err"], "res": nxt["res"]})
         pseudo = {"first_difference": (d or ".?: not enabled").replace(".post", "", 1), "behaviour": acts,
                   "action": nxt.get("a", {"n": "?"}), "observed": nxt.get("post", {})}
-        rep.violation(div_key(pseudo).replace("replay:", "trace:", 1),
+        rep.violation(div_key(pseudo),
                       "recorded history is not a behaviour of DbHistory at event %d (%s): %s" % (
                           k + 1, json.dumps(nxt.get("a")), d or "the call is not enabled / the outcome is not the specified one"),
                       {"direction": "trace", "part": "db", "trace": b["trace"], "matched": k, "mismatch": b.get("mismatch")})
@@ -1048,12 +1104,13 @@ def selftest():
     armi_ready()
     from armi.bookkeeping.db import database as dbmod
     from armi.bookkeeping.db import databaseInterface as dbimod
+    from armi.bookkeeping.historyTracker import HistoryTrackerInterface as HT
     from armi.operators import operator as opmod
 
     _SELFTEST = True
     D, DI, OP = dbmod.Database, dbimod.DatabaseInterface, opmod.Operator
     S = _Sources()
-    # the three repairs proposed in the report (no-ops on a tree where they are already made)
+    # the four repairs proposed in the report (no-ops on a tree where they are already made)
     repairs = [
         (D, "splitDatabase", 'dbOut[offsetGroupName + "/Reactor/cycle"][()] = offsetCycle\n',
          'dbOut[offsetGroupName + "/Reactor/cycle"][()] = offsetCycle\n'
@@ -1061,6 +1118,7 @@ def selftest():
         (D, "mergeHistory", "if cyc == startCycle and tn == startNode:", "if (cyc, tn) >= (startCycle, startNode):"),
         (D, "getHistoriesByLocation", "if ancestor == anchorSerialNum and loc in locations\n                ]\n            )",
          "if ancestor == anchorSerialNum and loc in locations\n                ],\n                dtype=int,\n            )"),
+        (HT, "getTimeSteps", "timeInYears = [t[1] for t in timeInYears]", "timeInYears = list(timeInYears.values())"),
     ]
     base = contextlib.ExitStack()
     for cls, name, old, new in repairs:
@@ -1153,6 +1211,10 @@ def selftest():
         ("close marks every file successful", V(D, "close", 'self.h5db.attrs["successfulCompletion"] = completedSuccessfully', 'self.h5db.attrs["successfulCompletion"] = True')),
         ("load ignores the label", V(D, "load", "h5group = self.h5db[getH5GroupName(cycle, node, statePointName)]", "h5group = self.h5db[getH5GroupName(cycle, node)] if getH5GroupName(cycle, node) in self.h5db else self.h5db[getH5GroupName(cycle, node, statePointName)]")),
         ("close leaves the file in the fast path", lambda: patched(D, "close", close_keeps_fast_path)),
+        ("history tracker answers every step with the live value",
+         V(HT, "getBlockHistoryVal", "if self._isCurrentTimeStep(ts) and not self._databaseHasDataForTimeStep(ts):", "if True:")),
+        ("Database.__exit__ closes as successful although an exception is passing",
+         V(D, "__exit__", "self.close(all(i is None for i in (type, value, traceback)))", "self.close(True)")),
     ]
     run_mutants_list = [
         ("Operator.__exit__ does not call interactAllError", lambda: patched(OP, "__exit__", exit_without_error_hooks)),
@@ -1166,7 +1228,10 @@ def selftest():
         ("prepRestartRun does not merge the history", V(DI, "prepRestartRun", "self._db.mergeHistory(inputDB, startCycle, startNode)", "pass")),
         ("writeDBEveryNode writes under the label 'EOL' at the last node", V(DI, "writeDBEveryNode", "self._db.writeToDB(self.r)", "self._db.writeToDB(self.r, 'x' if self.r.p.timeNode else None)")),
     ]
-    only = os.environ.get("C06_SELFTEST", "")
+    only = os.environ.get("C06_SELFTEST", "")  # "db" / "run": one half only
+    pick = os.environ.get("C06_MUTANT", "")    # substring of a mutant's label: only those
+    db_mutants = [m for m in db_mutants if pick in m[0]]
+    run_mutants_list = [m for m in run_mutants_list if pick in m[0]]
     rc = 0
     try:
         with base:
